@@ -40,11 +40,12 @@ VARIABLES
     role,    \* role of every byte: <<kind, width, byte index (LE order)>>
     walk,    \* the structural choices and payloads, in wire order
     k,       \* number of scalars emitted so far (selects the payload)
-    gend     \* 0, or 1 + offset at which the greedy array's elements ended
+    gend,    \* 0, or 1 + offset at which the greedy array's elements ended
+    ust      \* 0, or 1 + offset at which the ROOT struct's unlimited member starts
 
 svars == <<env, lay, cur, root>>
-evars == <<todo, frames, outL, outB, role, walk, k, gend>>
-vars  == <<phase, env, lay, cur, root, todo, frames, outL, outB, role, walk, k, gend>>
+evars == <<todo, frames, outL, outB, role, walk, k, gend, ust>>
+vars  == <<phase, env, lay, cur, root, todo, frames, outL, outB, role, walk, k, gend, ust>>
 
 (* ------------------------------------------------------------------------ *)
 (* Schema construction                                                      *)
@@ -96,7 +97,7 @@ CloseType ==
     /\ root' = Len(env) + 1
     /\ phase' = "enc"
     /\ todo' = << ValTask(Ref(Len(env) + 1)) >>
-    /\ UNCHANGED <<frames, outL, outB, role, walk, k, gend>>
+    /\ UNCHANGED <<frames, outL, outB, role, walk, k, gend, ust>>
 
 (* ------------------------------------------------------------------------ *)
 (* Encoder                                                                  *)
@@ -144,7 +145,9 @@ PartTasks(ms, p) ==
 RECURSIVE TasksFrom(_, _, _)
 TasksFrom(ms, ps, p) ==
     IF p > Len(ps) THEN <<>>
-    ELSE << Tk("pad", Byte, EffAlign(ps, p), 0, 0) >> \o PartTasks(ms, ps[p]) \o TasksFrom(ms, ps, p + 1)
+    ELSE << Tk("pad", Byte, EffAlign(ps, p), 0, 0) >>
+         \o (IF p = Len(ps) /\ MemberIsUnlimited(Kinds(lay), ms[ps[p].j]) THEN << Tk("umark", Byte, 0, 0, 0) >> ELSE <<>>)
+         \o PartTasks(ms, ps[p]) \o TasksFrom(ms, ps, p + 1)
 
 StructTasks(i) ==
     LET ms == env[i].ms
@@ -156,7 +159,7 @@ EncEnterStruct ==
     /\ LET i == Base(env, Top.t).i IN
          /\ todo' = StructTasks(i) \o Rest
          /\ frames' = << [j \in 1..Len(env[i].ms) |-> 0] >> \o frames
-    /\ UNCHANGED <<phase, svars, outL, outB, role, walk, k, gend>>
+    /\ UNCHANGED <<phase, svars, outL, outB, role, walk, k, gend, ust>>
 
 \* end of a struct: zero padding up to the struct alignment
 EncLeave ==
@@ -164,14 +167,14 @@ EncLeave ==
     /\ EmitZeros(PadLen(Len(outL), Top.a))
     /\ todo' = Rest
     /\ frames' = Tail(frames)
-    /\ UNCHANGED <<phase, svars, walk, k, gend>>
+    /\ UNCHANGED <<phase, svars, walk, k, gend, ust>>
 
 \* padding before a part, up to its effective alignment (incl. block rule)
 EncPad ==
     /\ phase = "enc" /\ todo # <<>> /\ Top.op = "pad"
     /\ EmitZeros(PadLen(Len(outL), Top.a))
     /\ todo' = Rest
-    /\ UNCHANGED <<phase, svars, frames, walk, k, gend>>
+    /\ UNCHANGED <<phase, svars, frames, walk, k, gend, ust>>
 
 \* zero fill up to an absolute offset (unused limited-array slots, absent
 \* optional, short union arm)
@@ -179,7 +182,7 @@ EncZero ==
     /\ phase = "enc" /\ todo # <<>> /\ Top.op = "zto"
     /\ EmitZeros(Top.a - Len(outL))
     /\ todo' = Rest
-    /\ UNCHANGED <<phase, svars, frames, walk, k, gend>>
+    /\ UNCHANGED <<phase, svars, frames, walk, k, gend, ust>>
 
 \* a scalar with a given payload (little-endian byte tuple)
 EncScalarV(bytes) ==
@@ -189,7 +192,7 @@ EncScalarV(bytes) ==
     /\ walk' = Append(walk, Ev("int", 0, bytes))
     /\ k' = k + 1
     /\ todo' = Rest
-    /\ UNCHANGED <<phase, svars, frames, gend>>
+    /\ UNCHANGED <<phase, svars, frames, gend, ust>>
 
 \* generative use: the q-th scalar carries the fixed pattern Payload(q, w)
 EncScalar ==
@@ -203,7 +206,7 @@ EncEnum(j) ==
          /\ Emit(IntBytes(vals[j], 4), "e")
     /\ walk' = Append(walk, Ev("enum", j, <<>>))
     /\ todo' = Rest
-    /\ UNCHANGED <<phase, svars, frames, k, gend>>
+    /\ UNCHANGED <<phase, svars, frames, k, gend, ust>>
 
 \* array counter (own u32 delimiter, or the external sizer member)
 EncCounter(n) ==
@@ -213,7 +216,7 @@ EncCounter(n) ==
     /\ frames' = << [Head(frames) EXCEPT ![Top.m] = n] >> \o Tail(frames)
     /\ walk' = Append(walk, Ev("len", n, <<>>))
     /\ todo' = Rest
-    /\ UNCHANGED <<phase, svars, k, gend>>
+    /\ UNCHANGED <<phase, svars, k, gend, ust>>
 
 \* trace validation: the recorded length may exceed the exploration bound MaxLen
 EncCounterAny(n) ==
@@ -223,7 +226,7 @@ EncCounterAny(n) ==
     /\ frames' = << [Head(frames) EXCEPT ![Top.m] = n] >> \o Tail(frames)
     /\ walk' = Append(walk, Ev("len", n, <<>>))
     /\ todo' = Rest
-    /\ UNCHANGED <<phase, svars, k, gend>>
+    /\ UNCHANGED <<phase, svars, k, gend, ust>>
 
 \* counted array: n elements; a limited array's slot is zero-filled to its
 \* full fixed size
@@ -234,7 +237,7 @@ EncArray ==
                    THEN << Tk("zto", Byte, Len(outL) + Top.n * TSize(lay, Top.t), 0, 0) >>
                    ELSE <<>>
        IN todo' = Copies(n, ValTask(Top.t)) \o fill \o Rest
-    /\ UNCHANGED <<phase, svars, frames, outL, outB, role, walk, k, gend>>
+    /\ UNCHANGED <<phase, svars, frames, outL, outB, role, walk, k, gend, ust>>
 
 \* greedy array: no counter, any number of elements to the end
 EncGreedy(n) ==
@@ -242,20 +245,20 @@ EncGreedy(n) ==
     /\ n \in 0..MaxLen
     /\ todo' = Copies(n, ValTask(Top.t)) \o << Tk("gend", Byte, 0, 0, 0) >> \o Rest
     /\ walk' = Append(walk, Ev("len", n, <<>>))
-    /\ UNCHANGED <<phase, svars, frames, outL, outB, role, k, gend>>
+    /\ UNCHANGED <<phase, svars, frames, outL, outB, role, k, gend, ust>>
 
 EncGreedyAny(n) ==
     /\ phase = "enc" /\ todo # <<>> /\ Top.op = "gre"
     /\ todo' = Copies(n, ValTask(Top.t)) \o << Tk("gend", Byte, 0, 0, 0) >> \o Rest
     /\ walk' = Append(walk, Ev("len", n, <<>>))
-    /\ UNCHANGED <<phase, svars, frames, outL, outB, role, k, gend>>
+    /\ UNCHANGED <<phase, svars, frames, outL, outB, role, k, gend, ust>>
 
 \* marks where the greedy array's elements ended (no bytes emitted)
 EncGreedyEnd ==
     /\ phase = "enc" /\ todo # <<>> /\ Top.op = "gend"
     /\ gend' = Len(outL) + 1
     /\ todo' = Rest
-    /\ UNCHANGED <<phase, svars, frames, outL, outB, role, walk, k>>
+    /\ UNCHANGED <<phase, svars, frames, outL, outB, role, walk, k, ust>>
 
 \* optional: u32 flag, then either padding to max(4, align T) and the value,
 \* or zeroes "up to size"
@@ -268,7 +271,7 @@ EncOptFlag(present) ==
                 ELSE << Tk("zto", Byte, Len(outL) + Top.a + TSize(lay, Top.t), 0, 0) >>)
                \o Rest
     /\ walk' = Append(walk, Ev("opt", present, <<>>))
-    /\ UNCHANGED <<phase, svars, frames, k, gend>>
+    /\ UNCHANGED <<phase, svars, frames, k, gend, ust>>
 
 \* union: u32 discriminator, arm at offset `alignment`, zero fill to the
 \* union's fixed size
@@ -281,7 +284,15 @@ EncDisc(a) ==
                        ValTask(env[i].arms[a].t),
                        Tk("zto", Byte, Len(outL) + lay[i].size, 0, 0) >> \o Rest
     /\ walk' = Append(walk, Ev("arm", a, <<>>))
-    /\ UNCHANGED <<phase, svars, frames, k, gend>>
+    /\ UNCHANGED <<phase, svars, frames, k, gend, ust>>
+
+\* notes where the root struct's unlimited member starts (C09: the address
+\* the raw swap returns for a message with a greedy tail); emits nothing
+EncUMark ==
+    /\ phase = "enc" /\ todo # <<>> /\ Top.op = "umark"
+    /\ ust' = IF Len(frames) = 1 THEN Len(outL) + 1 ELSE ust
+    /\ todo' = Rest
+    /\ UNCHANGED <<phase, svars, frames, outL, outB, role, walk, k, gend>>
 
 EncFinish ==
     /\ phase = "enc" /\ todo = <<>>
@@ -294,7 +305,7 @@ EncNext ==
     \/ \E n \in 0..MaxLen : EncCounter(n)
     \/ EncArray
     \/ \E n \in 0..MaxLen : EncGreedy(n)
-    \/ EncGreedyEnd
+    \/ EncGreedyEnd \/ EncUMark
     \/ \E p \in {0, 1} : EncOptFlag(p)
     \/ \E a \in 1..8 : EncDisc(a)
     \/ EncFinish
@@ -302,7 +313,7 @@ EncNext ==
 Init ==
     /\ SchemaInit
     /\ todo = <<>> /\ frames = <<>> /\ outL = <<>> /\ outB = <<>> /\ role = <<>>
-    /\ walk = <<>> /\ k = 1 /\ gend = 0
+    /\ walk = <<>> /\ k = 1 /\ gend = 0 /\ ust = 0
 
 Next ==
     \/ \E m \in Alphabet : AddMember(m)
